@@ -251,7 +251,14 @@ func disagreement(vl *vlang, prog *ref.Node, argNames []string, tuples [][]ref.V
 	return false, ""
 }
 
+var shrinkCount int
+
 func shrinkDisagreement(vl *vlang, prog *ref.Node, argNames []string, tuples [][]ref.Value, popts ref.PrintOpts) (string, string) {
+	shrinkCount++
+	if shrinkCount > 3 {
+		// reducing is expensive; a few reduced witnesses per worker process are enough
+		return "(not reduced)", ""
+	}
 	cp := prog.Clone()
 	why := ""
 	ref.Shrink(cp, func(n *ref.Node) bool {
